@@ -354,6 +354,28 @@ def run (ext : Ext) (s : Shape) (d : Data) (argVals : List Nat) : Except RErr Ma
   | .error e => .error e
   | .ok st => if st.pos ≤ d.len then .ok st.marker else .error .oob
 
+/-! ## offset resolution (`read-fonts/src/offset.rs`) -/
+
+/-- `FontData::split_off(off)` for `off ≤ len`: the bytes from `off` on -/
+def Data.splitOff (d : Data) (off : Nat) : Data := ⟨d.len - off, fun i => d.byte (off + i)⟩
+
+/-- `ReadError`s of `ResolveOffset::resolve`: its own two plus whatever `T::read` returns -/
+inductive Resolved
+  | null                 -- `Err(ReadError::NullOffset)` (`None` for a `Nullable` offset)
+  | err (e : RErr)
+  | ok (m : Marker)
+
+/-- `off.resolve::<T>(data)` / `off.resolve_with_args::<T>(data, args)`:
+`non_null().ok_or(NullOffset)`, `data.split_off(off).ok_or(OutOfBounds)` (`bytes.get(off..)`, i.e.
+`off ≤ len`), then `T::read` on the remainder. -/
+def resolve (ext : Ext) (s : Shape) (d : Data) (off : Nat) (argVals : List Nat) : Resolved :=
+  if off = 0 then .null
+  else if off ≤ d.len then
+    match run ext s (d.splitOff off) argVals with
+    | .ok m => .ok m
+    | .error e => .err e
+  else .err .oob
+
 /-! ## the generated `*_byte_range` functions -/
 
 /-- result of calling a `*_byte_range()` fn -/
